@@ -15,7 +15,11 @@ RULE = ("Same descriptor space as C01 (per-component exhaustive pools, the numbe
         "the same bytes; a disagreement is a machinery failure.  Finally the library's reader must open the file.  "
         "TLC also checks on every descriptor that the document the contract demands (Codec!AbstractDoc) is accepted "
         "by the schema automaton.  distinct_nontrivial = distinct (descriptor, d).")
-ASSUMPTIONS = ["element entries of one document are merged when identical (same path, children, lexical classes)",
+ASSUMPTIONS = ["ids: the pools use symbolic ids; Codec!Renumber materialises them with an id-order token (natural, lights_first, "
+               "interleaved, lanelets_high, obstacles_low, pp_smallest, reversed): every token for stop lines referring to signs AND "
+               "lights and for two-incoming intersections, in rotation over the other lanelet / sign / light / intersection "
+               "cases, at random in the mixed draws",
+               "element entries of one document are merged when identical (same path, children, lexical classes)",
                "lexical classes are computed by the harness with regular expressions; which class a type admits, the "
                "content models and the key constraints are Xsd2020a.tla",
                "descriptor space and its restrictions as for C01"]
